@@ -25,6 +25,9 @@ func init() {
 
 type c15Input struct {
 	Ops   [][]interface{} `json:"ops"`
+	// Known names a recorded deviation of the file store (known_findings.json): a witness sequence
+	// kept in the corpus that deliberately leaves c15FsDomain (section (b) there)
+	Known  string         `json:"known,omitempty"`
 	ViaCLI bool           `json:"viaCLI,omitempty"` // delallremote / renameallremote are run as `wrgl remote remove / rename` on a repository directory
 	Store string          `json:"store,omitempty"` // "" / "sql": pkg/ref/sql; "fs": pkg/ref/fs (names are files below a root directory)
 }
@@ -93,7 +96,7 @@ func c15Run(in *c15Input) Res {
 		cliDir := ""
 		fs := in.Store == "fs"
 		if fs {
-			if why := c15FsDomain(in); why != "" {
+			if why := c15FsDomain(in); why != "" && in.Known == "" {
 				return Err("fs-domain: " + why)
 			}
 			dir, err := os.MkdirTemp(privateTmp(), "reffs-")
@@ -442,7 +445,11 @@ func corpusC15(ctx *Ctx, op string, raw json.RawMessage) {
 	if err := json.Unmarshal(raw, &in); err != nil {
 		panic(err)
 	}
-	ctx.Emit("ops", &in, c15Run(&in), true, "corpus")
+	tags := []string{"corpus"}
+	if in.Known != "" {
+		tags = append(tags, "fs-known="+in.Known)
+	}
+	ctx.Emit("ops", &in, c15Run(&in), true, tags...)
 }
 
 
